@@ -5,9 +5,11 @@ cd "$(dirname "$0")"
 export GOFLAGS=-mod=mod GOPROXY=off GOSUMDB=off GOTOOLCHAIN=local
 cp /repo/go.sum go.sum
 mkdir -p .build evidence replays
-for p in e1 e2 e3; do
+for p in e1 e3; do
   go1.26.8 test -c -tags verif -vet=off -o .build/$p.test ./$p
 done
+python3 e2/mkoverlay.py .build/overlay-e2
+go1.26.8 test -c -tags verif -vet=off -overlay .build/overlay-e2/overlay.json -o .build/e2.test ./e2
 python3 e4/mkoverlay.py .build/overlay
 go1.26.8 test -c -tags verif -vet=off -overlay .build/overlay/overlay.json -o .build/e4.test ./e4
 python3 e4/mkoverlay.py .build/overlay.race
